@@ -132,12 +132,15 @@ QUICK_N = (2, 3, 6)
 def cells(tier, seed):
     out = []
     ns = QUICK_N if tier == "quick" else (2, 3, 4, 5, 6)
+    reps = (0,) if tier == "quick" else (0, 1, 2)      # thorough: three deterministic generic point sets per (n, d)
     for name, (has_ls, has_ard, ds, dom) in KERNELS.items():
         geoms = GEOMS if dom in ("real", "ball") else ["generic", "dup"]
-        for n, d, geom in itertools.product(ns, ds, geoms):
+        for rep, n, d, geom in itertools.product(reps, ns, ds, geoms):
+            if rep and geom == "collinear":
+                continue        # the collinear set does not depend on the generic draw
             for ls in (LS if has_ls else [1.0]):
                 for ard in ([False, True] if has_ard else [False]):
-                    out.append({"what": "gram", "kernel": name, "n": n, "d": d, "geometry": geom, "ls": ls, "ard": ard})
+                    out.append({"what": "gram", "kernel": name, "n": n, "d": d, "geometry": geom, "ls": ls, "ard": ard, "rep": rep})
     out += model_cells(tier)
     out += lattice_cells(tier)
     out += floor_cells(tier)
@@ -304,7 +307,7 @@ def make_kernel(name, d, ls, ard, g, seed):
 def run_gram(cell, seed, fails, feats):
     name, n, d, geom, ls, ard = (cell[k] for k in ("kernel", "n", "d", "geometry", "ls", "ard"))
     # the data depend on (n, d, geometry) only: every kernel / lengthscale sees the same point sets
-    g = util.gen(seed, f"c07|gram|{n}|{d}")
+    g = util.gen(seed, f"c07|gram|{n}|{d}|{cell.get('rep', 0)}")
     x = geometry(g, geom, n, d)
     gk = util.gen(seed, f"c07|gramk|{name}|{d}")
     ops = 0
@@ -315,7 +318,10 @@ def run_gram(cell, seed, fails, feats):
             xx = tf(x)
             Kd = k(xx).to_dense()
             ops += 1
-            st = check_cov(fails, "gram", Kd, detail=f"K = {name}(x).to_dense(), x = {xx.tolist()}")
+            xf = xx.to(F64)
+            diff = (xf.unsqueeze(-2) - xf.unsqueeze(-3)).norm(dim=-1)          # direct differences: no cancellation
+            dmin = float(diff[~torch.eye(n, dtype=torch.bool)].min())
+            st = check_cov(fails, "gram", Kd, detail=f"K = {name}(x).to_dense(), min pairwise distance {dmin:.3e}, x = {xx.tolist()}")
             # the two-argument call is the same Gram matrix
             K2 = k(xx, xx.clone()).to_dense()
             ops += 1
@@ -871,7 +877,7 @@ def run_noise(cell, seed, fails, feats):
 # ------------------------------------------------------------------------------------------------------------------------------
 
 RUNNERS = {"gram": run_gram, "model-cov": run_model, "subset-lattice": run_lattice, "variance-floor": run_floor, "noise-floor": run_noise}
-FEATURE_KEYS = ("what", "kernel", "geometry", "fam", "n", "d", "ls", "ard", "theta", "fast_pred_var", "noise", "min_variance", "kind", "constraint",
+FEATURE_KEYS = ("what", "kernel", "geometry", "fam", "n", "d", "ls", "ard", "rep", "theta", "fast_pred_var", "noise", "min_variance", "kind", "constraint",
                 "raw", "raw_task", "fixed", "route", "rank", "glob", "task")
 
 
